@@ -1,183 +1,8 @@
-(* C11 — proofs, part 3: the round trip, by induction on the dtype. *)
+(* C11 — proofs, part 4: the round trip, by induction on the dtype (main induction). *)
 From Coq Require Import List ZArith Bool String Ascii Lia.
-From OV.C11 Require Import Model Spec Statements Globals JsonFacts.
+From OV.C11 Require Import Model Spec Statements Globals JsonFacts RoundtripFields.
 Import ListNotations.
 Local Open Scope Z_scope.
-
-(* what the induction carries about the reconstructed dtype d' *)
-Definition rt_post (d d' : dtype) : Prop :=
-  view_of d' = view_of d /\
-  (builtin_leaves d -> flat d' = flat d) /\
-  is_byte_obj d' = is_byte_obj d /\
-  is_ref (self d') = false.
-
-Definition vbytes (v : view) : Z :=
-  match v with
-  | VBuiltin _ b | VCustom _ b | VEnum _ b _ | VStruct _ b _ | VTuple _ b _ _ | VUnion _ b _ => b
-  end.
-
-Lemma d_bytes_view : forall d, is_ref (self d) = false -> d_bytes d = vbytes (view_of d).
-Proof.
-  intros d H. unfold d_bytes. destruct d as [t| | | | |]; cbn in *;
-    try reflexivity; try (destruct (is_builtin_obj h); reflexivity).
-  destruct t; cbn in *; try discriminate; try reflexivity.
-  destruct (is_builtin_obj h); reflexivity.
-Qed.
-
-Lemma wf_self_nonref : forall d, wf d -> is_ref (self d) = false.
-Proof.
-  intros d H. destruct H; cbn; auto.
-  destruct (global_prop _ H) as [E|(_ & _ & _ & Hr & _)].
-  - subst. reflexivity.
-  - destruct g; cbn in *; auto; discriminate.
-Qed.
-
-(* ---- copy ---- *)
-Lemma copy_cases : forall d, copy d = DRef (self d) \/ copy d = self d.
-Proof. intro d. unfold copy. destruct (h_reg (hdr_of (self d))); auto. Qed.
-
-Lemma view_self : forall d, view_of (self d) = view_of d.
-Proof. destruct d; reflexivity. Qed.
-
-Lemma flat_self : forall d, flat (self d) = flat d.
-Proof. destruct d; reflexivity. Qed.
-
-Lemma view_copy : forall d, view_of (copy d) = view_of d.
-Proof. intro d. destruct (copy_cases d) as [E|E]; rewrite E; cbn; apply view_self. Qed.
-
-Lemma flat_copy : forall d, flat (copy d) = flat d.
-Proof. intro d. destruct (copy_cases d) as [E|E]; rewrite E; cbn; apply flat_self. Qed.
-
-Lemma self_copy : forall d, is_ref (self d) = false -> self (copy d) = self d.
-Proof.
-  intros d H. destruct (copy_cases d) as [E|E]; rewrite E; cbn; auto.
-  destruct (self d); cbn in *; auto; discriminate.
-Qed.
-
-Lemma d_bytes_copy : forall d, is_ref (self d) = false -> d_bytes (copy d) = d_bytes d.
-Proof. intros d H. unfold d_bytes. rewrite self_copy by assumption. reflexivity. Qed.
-
-(* ---- small list facts ---- *)
-Lemma has_field_false : forall n (acc : list (string * dtype)),
-  ~ In n (map fst acc) -> has_field n acc = false.
-Proof.
-  intros n acc H. unfold has_field.
-  induction acc as [|[k v] acc IH]; cbn in *; [reflexivity|].
-  destruct (String.eqb n k) eqn:E.
-  - apply String.eqb_eq in E. subst. exfalso. apply H. auto.
-  - apply IH. intro Hin. apply H. auto.
-Qed.
-
-Lemma str_in_false : forall n (acc : list string), ~ In n acc -> str_in n acc = false.
-Proof.
-  intros n acc H. unfold str_in. induction acc as [|k acc IH]; cbn in *; [reflexivity|].
-  destruct (String.eqb n k) eqn:E.
-  - apply String.eqb_eq in E. subst. exfalso. apply H. auto.
-  - apply IH. intro Hin. apply H. auto.
-Qed.
-
-Lemma NoDup_app_mid : forall (A : Type) (a : list A) x b,
-  NoDup (a ++ x :: b) -> ~ In x a /\ NoDup ((a ++ [x]) ++ b).
-Proof.
-  intros A a x b H. split.
-  - apply NoDup_remove_2 in H. intro Hin. apply H. apply in_or_app. auto.
-  - rewrite <- app_assoc. exact H.
-Qed.
-
-Lemma enum_names_rt : forall ns acc,
-  NoDup (acc ++ ns) ->
-  enum_names (map (fun n => jset "name"%string (JStr n) JNone) ns) acc = Some (acc ++ ns)%list.
-Proof.
-  induction ns as [|n ns IH]; intros acc H; cbn [map enum_names].
-  - rewrite app_nil_r. reflexivity.
-  - change (jhas "name"%string (jset "name"%string (JStr n) JNone)) with true.
-    change (jget "name"%string (jset "name"%string (JStr n) JNone)) with (JStr n).
-    cbn [andb j_isString j_toString].
-    destruct (NoDup_app_mid _ _ _ _ H) as [Hn Hd].
-    rewrite (str_in_false _ _ Hn). rewrite IH by exact Hd. rewrite <- app_assoc. reflexivity.
-Qed.
-
-Lemma fold_left_sum_ext : forall (l l' : list (string * dtype)),
-  Forall2 (fun a b => d_bytes (snd a) = d_bytes (snd b)) l l' ->
-  forall z, fold_left (fun a nf => a + d_bytes (snd nf)) l z =
-            fold_left (fun a nf => a + d_bytes (snd nf)) l' z.
-Proof.
-  induction 1 as [|a b l l' Hab _ IH]; intro z; cbn; [reflexivity|]. rewrite Hab. apply IH.
-Qed.
-
-Lemma height_in : forall (fs : list (string * dtype)) nf,
-  In nf fs -> (height (snd nf) <= fold_right (fun nf m => Nat.max (height (snd nf)) m) O fs)%nat.
-Proof.
-  induction fs as [|a fs IH]; cbn; intros nf H; [contradiction|].
-  destruct H as [H|H].
-  - subst. apply Nat.le_max_l.
-  - etransitivity; [apply IH; exact H | apply Nat.le_max_r].
-Qed.
-
-(* ---- the loop of struct / union fromJson over toJson's field array ---- *)
-Definition field_rt (nf nf' : string * dtype) : Prop :=
-  fst nf' = fst nf /\ exists d', snd nf' = copy d' /\ rt_post (snd nf) d'.
-
-Lemma fields_loop_rt : forall (rec : ident -> json -> option dtype) p fs i acc,
-  user_prefix p = true ->
-  Forall (fun nf => forall q, user_prefix q = true ->
-            exists d', rec q (toJson repaired (snd nf) EmptyString) = Some d' /\ rt_post (snd nf) d') fs ->
-  NoDup (map fst acc ++ map fst fs) ->
-  exists fs',
-    fields_loop rec p i
-      (map (fun nf => field_json (fst nf) (toJson repaired (snd nf) EmptyString)) fs) acc
-    = Some (acc ++ fs')%list /\ Forall2 field_rt fs fs'.
-Proof.
-  intros rec p fs. induction fs as [|[n f] fs IH]; intros i acc Hp Hall Hnd.
-  - exists []. cbn. rewrite app_nil_r. split; [reflexivity|constructor].
-  - inversion Hall as [|? ? Hf Hrest]; subst. cbn [map fst snd fields_loop].
-    destruct (Hf (p ++ [i])%list (user_prefix_app _ _ Hp)) as [d' [Hrec Hpost]].
-    cbn [fst snd] in *.
-    rewrite field_json_nf.
-    change (jhas "dtype"%string (JObj [("dtype"%string, toJson repaired f EmptyString); ("name"%string, JStr n)])) with true.
-    change (jhas "name"%string (JObj [("dtype"%string, toJson repaired f EmptyString); ("name"%string, JStr n)])) with true.
-    change (jget "name"%string (JObj [("dtype"%string, toJson repaired f EmptyString); ("name"%string, JStr n)])) with (JStr n).
-    change (jget "dtype"%string (JObj [("dtype"%string, toJson repaired f EmptyString); ("name"%string, JStr n)]))
-      with (toJson repaired f EmptyString).
-    cbn [andb j_isString j_toString]. rewrite Hrec.
-    cbn [map fst] in Hnd. destruct (NoDup_app_mid _ _ _ _ Hnd) as [Hn Hd].
-    rewrite (has_field_false _ _ Hn).
-    destruct (IH (i + 1) (acc ++ [(n, copy d')])%list Hp Hrest) as [fs' [Hloop Hf2]].
-    { rewrite map_app. cbn [map fst]. exact Hd. }
-    exists ((n, copy d') :: fs'). split.
-    + rewrite Hloop. rewrite <- app_assoc. reflexivity.
-    + constructor; [|exact Hf2]. split; [reflexivity|]. exists d'. split; [reflexivity|exact Hpost].
-Qed.
-
-Lemma fields_view : forall fs fs',
-  Forall2 field_rt fs fs' ->
-  map (fun nf => (fst nf, view_of (snd nf))) fs' = map (fun nf => (fst nf, view_of (snd nf))) fs.
-Proof.
-  induction 1 as [|nf nf' fs fs' [Hn [d' [Hc [Hv _]]]] _ IH]; cbn; [reflexivity|].
-  rewrite IH, Hn, Hc, view_copy, Hv. reflexivity.
-Qed.
-
-Lemma fields_bytes : forall fs fs',
-  Forall (fun nf => wf (snd nf)) fs -> Forall2 field_rt fs fs' -> sum_bytes fs' = sum_bytes fs.
-Proof.
-  intros fs fs' Hwf H. unfold sum_bytes. apply fold_left_sum_ext.
-  induction H as [|nf nf' fs fs' [Hn [d' [Hc [Hv [_ [_ Hr]]]]]] _ IH]; [constructor|].
-  inversion Hwf; subst. constructor; [|apply IH; assumption].
-  rewrite Hc, d_bytes_copy by exact Hr.
-  rewrite (d_bytes_view d') by exact Hr.
-  rewrite (d_bytes_view (snd nf)) by (apply wf_self_nonref; assumption).
-  rewrite Hv. reflexivity.
-Qed.
-
-Lemma fields_flat : forall fs fs',
-  Forall2 field_rt fs fs' ->
-  Forall (fun i => is_bid i = true) (flat_map (fun nf => flat (snd nf)) fs) ->
-  flat_map (fun nf => flat (snd nf)) fs' = flat_map (fun nf => flat (snd nf)) fs.
-Proof.
-  induction 1 as [|nf nf' fs fs' [Hn [d' [Hc [_ [Hfl _]]]]] _ IH]; cbn; intro Hb; [reflexivity|].
-  apply Forall_app in Hb. destruct Hb as [Hb1 Hb2].
-  rewrite IH by exact Hb2. rewrite Hc, flat_copy, (Hfl Hb1). reflexivity.
-Qed.
 
 (* ---- globals ---- *)
 Lemma toJson_builtin_obj : forall g nm,
@@ -199,7 +24,7 @@ Qed.
 
 Lemma rt_global : forall g, In g globals -> forall nm p n,
   user_prefix p = true ->
-  exists d', fromJson_n repaired (S n) p (toJson repaired g nm) = Some d' /\ rt_post g d'.
+  exists d', fromJson_n repaired (S n) p (toJson repaired g nm) = Some d' /\ rt_post nm g d'.
 Proof.
   intros g Hin nm p n Hp. destruct (global_prop _ Hin) as [E|(Hb & Hg & Hreg & Hr & Hn & Hid)].
   - subst g. exists (DLeaf (mkH p "none" 0 false)). split; [reflexivity|].
@@ -207,55 +32,49 @@ Proof.
     repeat split.
     + intro Hbl. inversion Hbl as [|? ? Hx _]; subst. vm_compute in Hx. discriminate.
     + unfold is_byte_obj, d_id. cbn [self hdr_of h_id]. rewrite (fresh_not_byte p Hp). reflexivity.
-  - exists (DRef g). split.
+  - assert (Hs : self g = g) by (destruct g; cbn in *; try discriminate; reflexivity).
+    exists (DRef g). split.
     + rewrite (toJson_builtin_obj g nm Hr Hb). rewrite fromJson_builtin.
       assert (Hnm : h_name (hdr_of g) = d_name g).
-      { unfold d_name. destruct g; cbn in *; try discriminate; reflexivity. }
-      rewrite Hnm, Hg, Hn. unfold copy.
-      assert (Hs : self g = g) by (destruct g; cbn in *; try discriminate; reflexivity).
-      rewrite Hs, Hreg. reflexivity.
+      { unfold d_name. rewrite Hs. reflexivity. }
+      rewrite Hnm, Hg, Hn. unfold copy. rewrite Hs, Hreg. reflexivity.
     + unfold rt_post. repeat split.
-      * assert (Hs : self g = g) by (destruct g; cbn in *; try discriminate; reflexivity).
-        unfold is_byte_obj, d_id. cbn [self]. rewrite Hs. reflexivity.
+      * unfold is_byte_obj, d_id. cbn [self]. rewrite Hs. reflexivity.
       * cbn. exact Hr.
 Qed.
 
 (* ---- the main induction ---- *)
 Definition rt_stmt (d : dtype) : Prop :=
   wf d -> forall nm p n,
-    user_prefix p = true -> names_kept nm d = true -> bytes_derived d = true ->
-    (height d < n)%nat ->
-    exists d', fromJson_n repaired n p (toJson repaired d nm) = Some d' /\ rt_post d d'.
-
-Lemma forallb_In : forall (A : Type) (f : A -> bool) l x, forallb f l = true -> In x l -> f x = true.
-Proof. intros A f l x H Hin. rewrite forallb_forall in H. apply H. exact Hin. Qed.
+    user_prefix p = true -> (height d < n)%nat ->
+    exists d', fromJson_n repaired n p (toJson repaired d nm) = Some d' /\ rt_post nm d d'.
 
 (* the field hypotheses of a struct / union, in the form fields_loop_rt wants *)
 Lemma fields_hyp : forall (fs : list (string * dtype)) n,
   Forall (fun nf => rt_stmt (snd nf)) fs ->
   Forall (fun nf => wf (snd nf)) fs ->
-  forallb (fun nf => names_kept EmptyString (snd nf)) fs = true ->
-  forallb (fun nf => bytes_derived (snd nf)) fs = true ->
   (fold_right (fun nf m => Nat.max (height (snd nf)) m) O fs < n)%nat ->
   Forall (fun nf => forall q, user_prefix q = true ->
             exists d', fromJson_n repaired n q (toJson repaired (snd nf) EmptyString) = Some d'
-                       /\ rt_post (snd nf) d') fs.
+                       /\ rt_post EmptyString (snd nf) d') fs.
 Proof.
-  intros fs n IH Hwf Hnm Hby Hh. apply Forall_forall. intros nf Hin q Hq.
+  intros fs n IH Hwf Hh. apply Forall_forall. intros nf Hin q Hq.
   rewrite Forall_forall in IH, Hwf.
   apply (IH nf Hin (Hwf nf Hin)); auto.
-  - exact (forallb_In (string * dtype) (fun nf => names_kept EmptyString (snd nf)) fs nf Hnm Hin).
-  - exact (forallb_In (string * dtype) (fun nf => bytes_derived (snd nf)) fs nf Hby Hin).
-  - pose proof (height_in fs nf Hin). lia.
+  pose proof (height_in fs nf Hin). lia.
 Qed.
+
+(* the guards of a user-defined composite, opened *)
+Lemma guard_split : forall (b : bool) (x y : bool), b = false -> b || (x && y) = true -> x = true /\ y = true.
+Proof. intros b x y Hb H. rewrite Hb in H. cbn in H. apply andb_true_iff in H. exact H. Qed.
 
 Lemma rt_main : forall d, rt_stmt d.
 Proof.
-  induction d using dtype_ind'; unfold rt_stmt; intros Hwf nm p n Hp Hnm Hby Hh.
+  induction d using dtype_ind'; unfold rt_stmt; intros Hwf nm p n Hp Hh.
   - (* DRef *)
     inversion Hwf as [t' Hr Hwt| g Hg | | | | |]; subst.
     2:{ destruct n; [lia|]. apply rt_global; assumption. }
-    destruct (IHd Hwt nm p n Hp Hnm Hby Hh) as [d' [He (Hv & Hf & Hb & Hrr)]].
+    destruct (IHd Hwt nm p n Hp Hh) as [d' [He (Hv & Hf & Hb & Hrr)]].
     exists d'. split; [exact He|]. unfold rt_post. repeat split; auto.
     rewrite Hb. unfold is_byte_obj, d_id. cbn [self]. destruct d; cbn in *; try discriminate; reflexivity.
   - (* DLeaf *)
@@ -272,50 +91,53 @@ Proof.
     destruct n; [lia|].
     inversion Hwf as [| g Hg | | h' ns' Hbid Hnd | | |]; subst; [apply rt_global; assumption|].
     pose proof (not_bid_not_builtin _ Hbid) as Hnb.
-    cbn [names_kept bytes_derived] in Hnm, Hby. rewrite Hnb in Hnm, Hby. cbn [orb] in Hnm, Hby.
-    apply String.eqb_eq in Hnm. apply Z.eqb_eq in Hby.
     exists (DEnum (mkH p nm 0 false) ns). split.
     + cbn [toJson repaired v_builtin_id]. rewrite Hnb. cbn [andb].
       rewrite fromJson_enum. rewrite enum_names_rt by exact Hnd. reflexivity.
-    + unfold rt_post. cbn [view_of h_name h_bytes]. rewrite Hnm, Hby. repeat split.
+    + unfold rt_post. cbn [view_of h_name h_bytes]. repeat split.
+      * intros Hnm Hby. cbn [names_kept bytes_derived] in Hnm, Hby.
+        rewrite Hnb in Hnm, Hby. cbn [orb] in Hnm, Hby.
+        apply String.eqb_eq in Hnm. apply Z.eqb_eq in Hby. rewrite Hnm, Hby. reflexivity.
       * intro Hbl. inversion Hbl as [|? ? Hx _]; subst. cbn in Hx. congruence.
       * unfold is_byte_obj, d_id. cbn [self hdr_of h_id].
         rewrite (fresh_not_byte p Hp), (not_bid_not_byte _ Hbid). reflexivity.
   - (* DStruct *)
     destruct n; [lia|].
     inversion Hwf as [| g Hg | | | h' fs' Hbid Hnd Hwfs | |]; subst; [apply rt_global; assumption|].
-    pose proof (not_bid_not_builtin _ Hbid) as Hnb.
-    cbn [names_kept bytes_derived] in Hnm, Hby. rewrite Hnb in Hnm, Hby. cbn [orb] in Hnm, Hby.
-    apply andb_true_iff in Hnm. destruct Hnm as [Hnm Hnms].
-    apply andb_true_iff in Hby. destruct Hby as [Hby Hbys].
-    apply String.eqb_eq in Hnm. apply Z.eqb_eq in Hby. cbn [height] in Hh.
-    assert (Hfh := fields_hyp fs n H Hwfs Hnms Hbys ltac:(lia)).
+    pose proof (not_bid_not_builtin _ Hbid) as Hnb. cbn [height] in Hh.
+    assert (Hfh := fields_hyp fs n H Hwfs ltac:(lia)).
     destruct (fields_loop_rt (fromJson_n repaired n) p fs 0 [] Hp Hfh Hnd) as [fs' [Hloop Hf2]].
     exists (DStruct (mkH p nm (sum_bytes fs') false) fs'). split.
     + cbn [toJson repaired v_builtin_id]. rewrite Hnb. cbn [andb].
       rewrite fromJson_struct. rewrite Hloop. reflexivity.
-    + unfold rt_post. cbn [view_of h_name h_bytes].
-      rewrite (fields_view _ _ Hf2), (fields_bytes _ _ Hwfs Hf2), Hnm, Hby. repeat split.
+    + unfold rt_post. cbn [view_of h_name h_bytes]. repeat split.
+      * intros Hnm Hby. cbn [names_kept bytes_derived] in Hnm, Hby.
+        destruct (guard_split _ _ _ Hnb Hnm) as [Hnm1 Hnm2].
+        destruct (guard_split _ _ _ Hnb Hby) as [Hby1 Hby2].
+        apply String.eqb_eq in Hnm1. apply Z.eqb_eq in Hby1.
+        rewrite (fields_view _ _ Hf2 Hnm2 Hby2), (fields_bytes _ _ Hwfs Hf2 Hnm2 Hby2), Hnm1, Hby1.
+        reflexivity.
       * intro Hbl. unfold builtin_leaves in Hbl. cbn [flat] in *. apply fields_flat; assumption.
       * unfold is_byte_obj, d_id. cbn [self hdr_of h_id].
         rewrite (fresh_not_byte p Hp), (not_bid_not_byte _ Hbid). reflexivity.
   - (* DTuple *)
     destruct n; [lia|].
     inversion Hwf as [| g Hg | | | | h' e' s' Hbid Hwe |]; subst; [apply rt_global; assumption|].
-    pose proof (not_bid_not_builtin _ Hbid) as Hnb.
-    cbn [names_kept bytes_derived] in Hnm, Hby. rewrite Hnb in Hnm, Hby. cbn [orb] in Hnm, Hby.
-    apply andb_true_iff in Hnm. destruct Hnm as [Hnm Hnme].
-    apply andb_true_iff in Hby. destruct Hby as [Hby Hbye].
-    apply String.eqb_eq in Hnm. apply Z.eqb_eq in Hby. cbn [height] in Hh.
-    destruct (IHd Hwe EmptyString (p ++ [0])%list n (user_prefix_app _ _ Hp) Hnme Hbye ltac:(lia))
+    pose proof (not_bid_not_builtin _ Hbid) as Hnb. cbn [height] in Hh.
+    destruct (IHd Hwe EmptyString (p ++ [0])%list n (user_prefix_app _ _ Hp) ltac:(lia))
       as [e' [He (Hv & Hf & Hb & Hr)]].
     exists (DTuple (mkH p nm (d_bytes e' * s) false) (copy e') s). split.
     + cbn [toJson repaired v_builtin_id]. rewrite Hnb. cbn [andb].
       rewrite fromJson_tuple. rewrite He. reflexivity.
-    + unfold rt_post. cbn [view_of h_name h_bytes]. rewrite view_copy, Hv, Hnm, Hby.
-      rewrite (d_bytes_view e') by exact Hr.
-      rewrite (d_bytes_view d) by (apply wf_self_nonref; exact Hwe). rewrite Hv.
-      repeat split.
+    + unfold rt_post. cbn [view_of h_name h_bytes]. repeat split.
+      * intros Hnm Hby. cbn [names_kept bytes_derived] in Hnm, Hby.
+        destruct (guard_split _ _ _ Hnb Hnm) as [Hnm1 Hnm2].
+        destruct (guard_split _ _ _ Hnb Hby) as [Hby1 Hby2].
+        apply String.eqb_eq in Hnm1. apply Z.eqb_eq in Hby1.
+        rewrite view_copy, (Hv Hnm2 Hby2), Hnm1, Hby1.
+        rewrite (d_bytes_view e') by exact Hr.
+        rewrite (d_bytes_view d) by (apply wf_self_nonref; exact Hwe). rewrite (Hv Hnm2 Hby2).
+        reflexivity.
       * intro Hbl. unfold builtin_leaves in Hbl. cbn [flat] in *. rewrite flat_copy.
         destruct (Z.to_nat s) eqn:Es; [reflexivity|].
         rewrite Hf; [reflexivity|]. cbn [repeat concat] in Hbl. apply Forall_app in Hbl. apply Hbl.
@@ -324,19 +146,32 @@ Proof.
   - (* DUnion *)
     destruct n; [lia|].
     inversion Hwf as [| g Hg | | | | | h' fs' Hbid Hnd Hwfs]; subst; [apply rt_global; assumption|].
-    pose proof (not_bid_not_builtin _ Hbid) as Hnb.
-    cbn [names_kept bytes_derived] in Hnm, Hby. rewrite Hnb in Hnm, Hby. cbn [orb] in Hnm, Hby.
-    apply andb_true_iff in Hnm. destruct Hnm as [Hnm Hnms].
-    apply andb_true_iff in Hby. destruct Hby as [Hby Hbys].
-    apply String.eqb_eq in Hnm. apply Z.eqb_eq in Hby. cbn [height] in Hh.
-    assert (Hfh := fields_hyp fs n H Hwfs Hnms Hbys ltac:(lia)).
+    pose proof (not_bid_not_builtin _ Hbid) as Hnb. cbn [height] in Hh.
+    assert (Hfh := fields_hyp fs n H Hwfs ltac:(lia)).
     destruct (fields_loop_rt (fromJson_n repaired n) p fs 0 [] Hp Hfh Hnd) as [fs' [Hloop Hf2]].
     exists (DUnion (mkH p nm (sum_bytes fs') false) fs'). split.
     + cbn [toJson repaired v_builtin_id]. rewrite Hnb. cbn [andb].
       rewrite fromJson_union. rewrite Hloop. reflexivity.
-    + unfold rt_post. cbn [view_of h_name h_bytes].
-      rewrite (fields_view _ _ Hf2), (fields_bytes _ _ Hwfs Hf2), Hnm, Hby. repeat split.
+    + unfold rt_post. cbn [view_of h_name h_bytes]. repeat split.
+      * intros Hnm Hby. cbn [names_kept bytes_derived] in Hnm, Hby.
+        destruct (guard_split _ _ _ Hnb Hnm) as [Hnm1 Hnm2].
+        destruct (guard_split _ _ _ Hnb Hby) as [Hby1 Hby2].
+        apply String.eqb_eq in Hnm1. apply Z.eqb_eq in Hby1.
+        rewrite (fields_view _ _ Hf2 Hnm2 Hby2), (fields_bytes _ _ Hwfs Hf2 Hnm2 Hby2), Hnm1, Hby1.
+        reflexivity.
       * intro Hbl. unfold builtin_leaves in Hbl. cbn [flat] in *. apply fields_flat; assumption.
       * unfold is_byte_obj, d_id. cbn [self hdr_of h_id].
         rewrite (fresh_not_byte p Hp), (not_bid_not_byte _ Hbid). reflexivity.
+Qed.
+
+(* ---- with the fuel fromJson supplies ---- *)
+Theorem roundtrip_main : forall d nm p,
+  wf d -> user_prefix p = true ->
+  exists d', roundtrip p d nm = Some d' /\ rt_post nm d d'.
+Proof.
+  intros d nm p Hwf Hp. unfold roundtrip, fromJson.
+  set (j := toJson repaired d nm).
+  destruct (rt_main d Hwf nm p (S (Nat.max (height d) (jdepth j))) Hp ltac:(lia)) as [d' [He Hpost]].
+  exists d'. split; [|exact Hpost].
+  rewrite <- He. subst j. apply fuel_enough; lia.
 Qed.
